@@ -65,6 +65,9 @@ func observe(c Case, withHeaders bool) (o obsT, panicked string) {
 		return nil
 	})
 	hdr := []string{"Host", c.Host}
+	if c.Host == "" {
+		hdr = nil // no Host header at all (an HTTP/1.0 client)
+	}
 	if withHeaders {
 		for _, h := range c.Headers {
 			hdr = append(hdr, h[0], h[1])
@@ -238,7 +241,7 @@ var oddItems = []string{"::ffff:10.0.0.1", "2001:DB8:0:0:0:0:0:1", "2001:db8:0::
 func genCase(t *rapid.T) Case {
 	c := Case{Loopback: rapid.Bool().Draw(t, "lo"), Private: rapid.Bool().Draw(t, "pr"), LinkLocal: rapid.Bool().Draw(t, "ll"),
 		ProxyHeader: rapid.SampledFrom([]string{"", "X-Forwarded-For", "X-Real-Ip", "X-Client-Ip"}).Draw(t, "ph"),
-		Validate:    rapid.Bool().Draw(t, "val"), Host: rapid.SampledFrom([]string{"real.sub.test", "real.sub.test:8080", "localhost"}).Draw(t, "host")}
+		Validate:    rapid.Bool().Draw(t, "val"), Host: rapid.SampledFrom([]string{"real.sub.test", "real.sub.test:8080", "localhost", "real.sub.test", ""}).Draw(t, "host")}
 	pool := items[:len(items)-1]
 	if rapid.IntRange(0, 19).Draw(t, "all") == 0 {
 		pool = items
